@@ -102,7 +102,7 @@ pub struct CompSpec {
     pub inputs: Vec<(usize, Mode)>,
     pub fallible: Option<usize>,
     pub is_async: bool,
-    /// handlers only
+    /// handlers; for a middleware only `path_param_fields` is meaningful (it then asks for `&PathParams<..>`)
     pub route: Option<RouteSpec>,
     /// framework-provided inputs taken by reference (indices into `FRAMEWORK_INPUTS`)
     #[serde(default)]
